@@ -1,1 +1,7 @@
--- stub: no theorems of C05 yet
+import WmModel.Props.C05
+#print axioms Wm.GcSub.one_unsettled_inv
+#print axioms Wm.GcSub.unsettled_is_owned
+#print axioms Wm.GcSub.no_send_while_unsettled
+#print axioms Wm.GcSub.never_panics
+#print axioms Wm.GcSub.close_flags_consistent
+#print axioms Wm.GcSub.holder_can_leave_when_closing
